@@ -10,6 +10,7 @@ One output line per input line:  M<TAB>S<TAB>G<TAB>T
 import DtailModel.Generated.Code
 import DtailModel.Lemmas.GenAggregate
 import DtailModel.Model.Hex
+import DtailModel.Model.GlobID
 import DtailModel.Model.Wire
 import DtailModel.Model.Fast
 import DtailModel.Model.Grep
@@ -166,6 +167,17 @@ def opC18List : List String → Res
         -- initRegex: the server argument becomes the filter and the list source is emptied
         c18res (splitOnByte COMMA []) (some (fun _ => bit = "1")) rs
       else c18res (splitOnByte COMMA srv) none rs
+    | _, _ => bad
+  | _ => bad
+
+/-- a plugged-in module supplies the entries, the server argument is the filter; `bits` are Go's regexp verdicts
+    per entry (in entry order) -/
+def opC18Filter : List String → Res
+  | [ents, idx, bits] => match unhex ents, natList idx with
+    | some ents, some rs =>
+      let entries := if ents.isEmpty then [] else splitOnByte COMMA ents
+      let verdicts := (entries.zip (bits.toList.map (· == '1')))
+      c18res entries (some (fun e => (verdicts.find? (·.1 = e)).map (·.2) |>.getD false)) rs
     | _, _ => bad
   | _ => bad
 
@@ -534,8 +546,8 @@ def opC08Perm : List String → Res
     | _, _, _ => bad
   | _ => bad
 
-def opC08Cat : List String → Res
-  | [_glob, rules, oracle] => match parseRulesArg rules with
+def opC08CatCore (rules oracle : String) : Res :=
+  match parseRulesArg rules with
     | some rules =>
       let os := if oracle = "-" then [] else (oracle.splitOn ";").filterMap parsePathOracle
       let decide (o : PathOracle) := (c08decide (b!"verif") rules o)
@@ -555,6 +567,11 @@ def opC08Cat : List String → Res
         s := s!"served={sServed};warned={boolStr (anyDenied fun o => (decide o).2)}",
         t := joinWith "," ((if os.length > 1 then ["glob"] else []) ++ (if mServed ≠ "-" then ["served"] else ["nothing"])) }
     | none => bad
+
+/-- the command word and the options a client sends (third argument) do not enter the decision -/
+def opC08Cat : List String → Res
+  | [_glob, rules, oracle] => opC08CatCore rules oracle
+  | [_glob, rules, _head, oracle] => opC08CatCore rules oracle
   | _ => bad
 
 /-! C05 -/
@@ -1309,6 +1326,25 @@ def opGenAgg : List String → Res
     | none => bad
   | _ => bad
 
+/-- file identifiers of a session over one glob: the model's makeGlobID for every matched path (the cleaned glob
+    and the matches are Go's), and the attribution oracle: different files, different identifiers -/
+def opC07GlobID : List String → Res
+  | [_spelling, oracle] => match oracle.splitOn ";" with
+    | [gh, phs] => (match unhex gh with
+      | some glob =>
+        let paths := ((phs.splitOn ",").filter (· ≠ "")).filterMap unhex
+        let ids := paths.map fun p => (p, match makeGlobID p glob with | .ok id => hexOf id | .err e => "ERR " ++ e | .panic w => "PANIC " ++ w)
+        let m := if ids.isEmpty then "-" else joinWith "|" (ids.map fun (p, id) => hexOf p ++ "=" ++ id)
+        let distinct := (ids.map (·.2)).eraseDups.length = ids.length
+        let parts := splitOnByte SLASH glob
+        let starless := parts.any fun g => (g.contains 63 ∨ g.contains 91) ∧ !g.contains STAR
+        { m := m, s := if distinct then m else "AMBIGUOUS-IDENTIFIERS",
+          t := joinWith "," ((if ids.length > 1 then ["multi-file"] else []) ++ (if parts.any (·.contains STAR) then ["star"] else [])
+            ++ (if starless then ["starless-wildcard"] else [])) }
+      | none => bad)
+    | _ => bad
+  | _ => bad
+
 def dispatch (line : String) : Res :=
   match (line.splitOn " ").filter (· ≠ "") with
   | "gen.stats" :: a => opGenStats a
@@ -1330,6 +1366,7 @@ def dispatch (line : String) : Res :=
   | "c07.multi" :: a => opC07Multi a
   | "c07.sched" :: a => opC07Sched a
   | "c07.pipe" :: a => opC07Pipe a
+  | "c07.globid" :: a => opC07GlobID a
   | "c08.perm" :: a => opC08Perm a
   | "c08.cat" :: a => opC08Cat a
   | "c09.keys" :: a => opC09Keys a
@@ -1352,6 +1389,7 @@ def dispatch (line : String) : Res :=
   | "c17.wrap" :: a => opC17Wrap a
   | "c18.list" :: a => opC18List a
   | "c18.file" :: a => opC18File a
+  | "c18.filter" :: a => opC18Filter a
   | _ => bad
 
 partial def loop (h : IO.FS.Stream) (out : IO.FS.Stream) : IO Unit := do
